@@ -51,6 +51,18 @@ RULE = ("fault enumeration on packets sealed by the harness's own MTProto 1.0 se
         "2^20 bytes; every one through DeserializeEncrypted, those from 2^23 on and a share of the others also through ReadMsg over "
         "loopback TCP; c04.cut: frames cut short by the end of the connection (ReadMsg's connection returns). Result contract on "
         "every operation: err == nil with a nil message (pointer, interface, typed nil) is the violation 'no error and no message'; "
+        "HELD MESSAGES (session 9, c04hold.go): every message handed out by DeserializeEncrypted / DeserializeUnencrypted / "
+        "ReadMsg in any operation of the run stays alive in the harness with a private copy of every field taken at hand-out "
+        "time and is compared with it after EVERY later operation (and after every packet inside a session / sequence), at "
+        "c04.heldcheck points after two forced collections and at the end of the run; collector off during the run "
+        "(SetGCPercent(-1), restored), forced collections every 1500 operations; the caller's packet buffer is overwritten "
+        "right after every deserialiser call; c04.hold: sequences in one line - genuine packet, one packet of each of 17 "
+        "refusal classes / accepted kinds (bit flip, msg_key flip, block cut, garbage of 1 block / same / longer / shorter "
+        "size, parity, bad length, bad msg_key, foreign key, unaligned, short, empty, bad plain text, code; valid, the same "
+        "again, plain text), genuine packet - through the deserialiser (o/u), one transport (r), a second transport (s), "
+        "other keys, random walks of 4..12 packets in the modes {one P, all Ps} x {collector off, on, forced after every "
+        "packet}, and packets of 2^12..2^20 (thorough 2^24) bytes between small ones; a changed message is a violation "
+        "whose replay is the operation that handed it out + those in between + the one after which it had changed; "
         "unencrypted packets: every truncation, declared length len-33..len+33 and extremes, wrong parity. Judge: never a panic; "
         "an accepted message must be what the independent specification receiver recovers from those bytes and have server "
         "parity; alterations must be errors; valid (re-)sealings must open to what was sealed. distinct = distinct operation "
